@@ -1,0 +1,259 @@
+//go:build verif
+
+package sqlx
+
+import (
+	"database/sql"
+	"encoding/json"
+	"fmt"
+	"regexp"
+	"strconv"
+	"strings"
+	"sync"
+	"testing"
+	"time"
+
+	"github.com/gotid/god/internal/verifdrv"
+	"github.com/gotid/god/internal/verifexec"
+	"github.com/gotid/god/lib/executors"
+	"github.com/gotid/god/lib/timex"
+)
+
+// C16 driver for BulkInserter (dbInserter container feeding a PeriodicalExecutor): scripted Insert /
+// Flush / Tick sequences and FORCED overlaps (an Exec is held while a second batch is cut off and
+// queued and more rows arrive), against a recording SqlConn. Reports the rows of every executed
+// statement, stamped with a global sequence counter. No oracle logic.
+
+type verifC16Op struct {
+	Op     string `json:"op"` // insert | flush | tick | advance | overlap
+	N      int    `json:"n"`
+	First  int    `json:"first"`
+	Second int    `json:"second"`
+	After  int    `json:"after"`
+}
+
+type verifC16Case struct {
+	Suffix bool         `json:"suffix"`
+	Ops    []verifC16Op `json:"ops"`
+}
+
+type verifC16Add struct {
+	ID   int   `json:"id"`
+	Call int64 `json:"call"`
+	Ret  int64 `json:"ret"`
+}
+
+type verifC16Call struct {
+	Kind string `json:"kind"`
+	Call int64  `json:"call"`
+	Ret  int64  `json:"ret"`
+}
+
+type verifC16Tick struct {
+	Seq       int64 `json:"seq"`
+	Delivered bool  `json:"delivered"`
+	Done      int64 `json:"done"`
+}
+
+type verifC16Batch struct {
+	IDs   []int `json:"ids"`
+	Start int64 `json:"start"`
+	End   int64 `json:"end"`
+}
+
+const (
+	verifC16Prefix = "insert into t (id, tag) values"
+	verifC16Suffix = "on duplicate key update tag=values(tag)"
+)
+
+var verifC16Row = regexp.MustCompile(`\((\d+), 'r'\)`)
+
+// verifC16Conn records every Exec; only Exec is ever called by dbInserter.
+type verifC16Conn struct {
+	Conn
+	p       *verifexec.Probe
+	mu      sync.Mutex
+	suffix  bool
+	batches []verifC16Batch
+	bad     string
+	gate    chan struct{} // non-nil: Exec parks at entry
+	parked  int
+}
+
+func (c *verifC16Conn) Exec(query string, args ...any) (sql.Result, error) {
+	start := c.p.Next()
+	c.mu.Lock()
+	gate := c.gate
+	if gate != nil {
+		c.parked++
+	}
+	c.mu.Unlock()
+	c.p.Bump(func() {})
+	if gate != nil {
+		<-gate
+	}
+	ids := []int{}
+	var rows []string
+	for _, m := range verifC16Row.FindAllStringSubmatch(query, -1) {
+		id, _ := strconv.Atoi(m[1])
+		ids = append(ids, id)
+		rows = append(rows, m[0])
+	}
+	want := verifC16Prefix + " " + strings.Join(rows, ", ")
+	if c.suffix {
+		want += " " + verifC16Suffix
+	}
+	c.mu.Lock()
+	if query != want || len(args) != 0 {
+		c.bad = "statement is not prefix + rows + suffix"
+	}
+	c.batches = append(c.batches, verifC16Batch{IDs: ids, Start: start, End: c.p.Next()})
+	c.mu.Unlock()
+	return nil, nil
+}
+
+func TestVerifDriverC16(t *testing.T) {
+	verifdrv.Run(t, func(raw json.RawMessage) any {
+		var c verifC16Case
+		if err := json.Unmarshal(raw, &c); err != nil {
+			return map[string]any{"error": err.Error()}
+		}
+		timex.VerifSetNow(time.Hour)
+		conn := &verifC16Conn{suffix: c.Suffix}
+		stmt := verifC16Prefix + " (?, ?)"
+		if c.Suffix {
+			stmt += " " + verifC16Suffix
+		}
+		bi, err := NewBulkInserter(conn, stmt)
+		if err != nil {
+			return map[string]any{"error": err.Error()}
+		}
+		p := verifexec.Attach(bi.executor)
+		conn.p = p
+		handled := 0
+		bi.SetResultHandler(func(sql.Result, error) {
+			conn.mu.Lock()
+			handled++
+			conn.mu.Unlock()
+		})
+
+		var (
+			mu    sync.Mutex
+			next  int
+			adds  []verifC16Add
+			calls []verifC16Call
+			ticks []verifC16Tick
+		)
+		insert := func(n int) {
+			for i := 0; i < n; i++ {
+				mu.Lock()
+				next++
+				id := next
+				k := len(adds)
+				adds = append(adds, verifC16Add{ID: id, Call: p.Next()})
+				mu.Unlock()
+				if err := bi.Insert(id, "r"); err != nil {
+					p.SetHung("insert: " + err.Error())
+				}
+				mu.Lock()
+				adds[k].Ret = p.Next()
+				mu.Unlock()
+			}
+		}
+		for i, op := range c.Ops {
+			if p.Hung() != "" {
+				break
+			}
+			what := fmt.Sprintf("op#%d %s", i, op.Op)
+			switch op.Op {
+			case "insert":
+				if p.Bounded(what, func() { insert(op.N) }) {
+					p.Settle(what)
+				}
+			case "flush":
+				k := len(calls)
+				calls = append(calls, verifC16Call{Kind: "flush", Call: p.Next()})
+				if p.Bounded(what, bi.Flush) {
+					calls[k].Ret = p.Next()
+					p.Settle(what)
+				}
+			case "tick":
+				tk := verifC16Tick{Seq: p.Next()}
+				tk.Delivered = p.Tick()
+				p.Settle(what)
+				tk.Done = p.Next()
+				ticks = append(ticks, tk)
+			case "advance":
+				timex.VerifAdvance(time.Duration(op.N) * flushInterval)
+			case "overlap":
+				gate := make(chan struct{})
+				conn.mu.Lock()
+				conn.gate = gate
+				conn.parked = 0
+				conn.mu.Unlock()
+				p.Bounded(what, func() { insert(op.First) })
+				// the first batch (if one was cut off) is now being executed: wait until Exec is parked
+				_, _, _, _ = p.State()
+				p.UntilFor(verifexec.Patience/4, func() bool {
+					conn.mu.Lock()
+					defer conn.mu.Unlock()
+					return conn.parked > 0
+				})
+				p.Mu.Lock()
+				cmds := p.Commands
+				p.Mu.Unlock()
+				done := make(chan struct{})
+				go func() {
+					defer close(done)
+					insert(op.Second)
+				}()
+				// the second inserter finishes, or cuts a batch off and parks with it in the hand-over channel
+				finished := false
+				deadline := time.Now().Add(verifexec.Patience)
+				for !finished && time.Now().Before(deadline) {
+					select {
+					case <-done:
+						finished = true
+					default:
+						p.Mu.Lock()
+						cut := p.Commands > cmds
+						p.Mu.Unlock()
+						if _, queued, _ := executors.VerifPending(bi.executor); cut && queued == 1 {
+							finished = true
+						} else {
+							time.Sleep(200 * time.Microsecond)
+						}
+					}
+				}
+				p.Bounded(what, func() { insert(op.After) })
+				conn.mu.Lock()
+				conn.gate = nil
+				conn.mu.Unlock()
+				close(gate)
+				select {
+				case <-done:
+					p.Settle(what)
+				case <-time.After(verifexec.Patience):
+					p.SetHung(what + ": second inserter did not return")
+				}
+			}
+		}
+		conn.mu.Lock()
+		defer conn.mu.Unlock()
+		hung := p.Hung()
+		if hung == "" && conn.bad != "" {
+			hung = conn.bad
+		}
+		if hung == "" && handled != len(conn.batches) {
+			hung = "result handler calls differ from executed statements"
+		}
+		_, _, _, queued := p.State()
+		mu.Lock()
+		defer mu.Unlock()
+		return map[string]any{
+			"adds": append([]verifC16Add{}, adds...), "calls": append([]verifC16Call{}, calls...),
+			"ticks": append([]verifC16Tick{}, ticks...), "batches": append([]verifC16Batch{}, conn.batches...),
+			"perop": []any{}, "hung": hung, "pending": queued, "max": maxBulkRows,
+		}
+	})
+}
